@@ -15,7 +15,7 @@ import (
 
 func init() {
 	register("C07", "Decides the structural basis of 'every committed write reaches every live query it affects' in livesql: the dependency is registered (tracker + reactive) before the query is executed, on every path, inside the cached computation; registerDependency always adds to the tracker and to the reactive graph and its cleanup removes it; processBinlog tests every registered resource under the tracker lock and invalidates on a match, no update (whatever it carries) returns before that loop, and the consumer goroutine of RunPollLoop hands every received update to it; shouldInvalidate consults both the before and the after image of every delta and invalidates on update.err; an undecodable rows event is turned into an update carrying the table and the error and is delivered (update.err has a writer; no path from a decode error other than 'unknown table' / 'database closed' skips the send); the event-kind table covers WRITE/UPDATE/DELETE v1+v2 with after-only / both / before-only deltas, update rows paired (i, i+1) behind the even-length test; binlog rows are decoded with the column pairing of C13 and only when their column count equals the expected one exactly and column maps are dropped when the table id changes; Tester.Test compares every filter column. RunPollLoop's decision table (rows events delivered, skipped or turned into update{table, err}; a table-map event with an unseen table or a changed id drops the column map on every path) is evaluated under every assignment of its predicates. Not decided: agreement of the in-memory tester with SQL WHERE for every type and value, binlog delivery/ordering, MySQL itself.", c07)
-	register("C10", "Decides structural conditions of batched-select transparency in sqlgen: in the batch function both the filters and the fetched rows are normalised with the column Valuer (the same normaliser makeWhere and the row tester use) before building the statement and before matching; result i belongs to item i (matcher ids are the induction index of the items, results indexed by the id returned by match, one output per item in order); makeBatchQuery contributes one tuple per filter with placeholders and arguments in lock step, extracted with the group's own column list, with the documented match-all short-circuit for an empty filter; batching is used only without options, outside a transaction and with batching on the context, after the limit check, sharded by table. Not decided: equality of returned rows for all table contents, MySQL collation and coercion.", c10)
+	register("C10", "Decides structural conditions of batched-select transparency in sqlgen: in the batch function both the filters and the fetched rows are normalised with the column Valuer (the same normaliser makeWhere and the row tester use) before building the statement and before matching; result i belongs to item i (matcher ids are the induction index of the items, results indexed by the id returned by match, one output per item in order); makeBatchQuery contributes one tuple per filter with placeholders and arguments in lock step, extracted with the group's own column list, with the documented match-all short-circuit for an empty filter; batching is used only without options, outside a transaction and with batching on the context, after the limit check, sharded by table; makeBatchQuery's clause renderer emits exactly the IN / IS / AND fragments and arguments under every (value nil, values written, nil seen) assignment; the row matcher files filters and looks rows up under the same key derivation and probes every group. Not decided: equality of returned rows for all table contents, MySQL collation and coercion.", c10)
 }
 
 const lsq = "livesql"
